@@ -20,7 +20,20 @@
     OUTER → OuterJoin(condition, direction); afterwards the USING / NATURAL column merge;
   * InnerJoin without condition is CrossJoin; OuterJoin has NO shortcut (it pads also without a condition); RIGHT swaps the
     views before the workers start and swaps them back before the header / record set are stored; FULL: per-worker
-    joinViewMatches, OR-ed after the workers, unmatched inner records appended NULL-padded on the left.
+    joinViewMatches, OR-ed after the workers, unmatched inner records appended NULL-padded on the left;
+  * (reviewed on f7faefc) createScope / CreateChild / CreateNode build ONE ReferenceScope literal each: Tx, the file-path
+    cache, the statement's time stamp, RecursiveTable, RecursiveTmpView and RecursiveCount are copied from the receiver
+    by all three (CreateNode only fills the cache / the time stamp when they are still unset); createScope keeps Blocks
+    and nodes and takes the records it is given; CreateChild puts a new block in front and starts without nodes and
+    records; CreateNode puts a new node in front and keeps Blocks and Records.  InlineTableMap.Set evaluates the
+    definition in a node of its own and sets RecursiveTable there for WITH RECURSIVE (a second one inside: error);
+    selectSet clears RecursiveTmpView after the anchor member was evaluated and hands over to selectSetForRecursion,
+    which counts against --limit-recursion, stores the anchor's view (first round) / the step's view (later rounds)
+    under the upper-cased name and the column list as RecursiveTmpView BEFORE the next step is evaluated in a fresh
+    node, stops at the first empty step, merges with the operator.  NOTE: `scope.RecursiveTable != nil` also holds for
+    every set operation nested in a member of the recursive definition (a sub-query with UNION inside the step): it is
+    run as a recursion of its own right-hand side until the limit - reported, not modelled (the generator writes no
+    set operators inside recursive members).
 -/
 namespace Csvq.Ref
 
@@ -521,5 +534,155 @@ def fieldNumberIndexShape : List String :=
    "}",
    "}",
    "return-1,errFieldNotExist"]
+
+/-! reference_scope.go / query.go / inline_tables.go: the scope constructors and the recursion (reviewed on f7faefc) -/
+
+/-- `ReferenceScope.createScope` as a whole -/
+def createScopeBody : List String :=
+  ["return&ReferenceScope{Tx:rs.Tx,Blocks:rs.Blocks,nodes:rs.nodes,cachedFilePath:rs.cachedFilePath,now:rs.now,Records:referenceRecords,RecursiveTable:rs.RecursiveTable,RecursiveTmpView:rs.RecursiveTmpView,RecursiveCount:rs.RecursiveCount,}"]
+
+/-- `ReferenceScope.CreateChild` as a whole -/
+def createChildBody : List String :=
+  ["blocks:=make([]BlockScope,len(rs.Blocks)+1)",
+   "blocks[0]=GetBlockScope()",
+   "for(i:range:rs.Blocks){",
+   "blocks[i+1]=rs.Blocks[i]",
+   "}",
+   "return&ReferenceScope{Tx:rs.Tx,Blocks:blocks,nodes:nil,cachedFilePath:rs.cachedFilePath,now:rs.now,RecursiveTable:rs.RecursiveTable,RecursiveTmpView:rs.RecursiveTmpView,RecursiveCount:rs.RecursiveCount,}"]
+
+/-- `ReferenceScope.CreateNode` as a whole -/
+def createNodeBody : List String :=
+  ["nodes:=make([]NodeScope,len(rs.nodes)+1)",
+   "nodes[0]=GetNodeScope()",
+   "for(i:range:rs.nodes){",
+   "nodes[i+1]=rs.nodes[i]",
+   "}",
+   "node:=&ReferenceScope{Tx:rs.Tx,Blocks:rs.Blocks,nodes:nodes,cachedFilePath:rs.cachedFilePath,now:rs.now,Records:rs.Records,RecursiveTable:rs.RecursiveTable,RecursiveTmpView:rs.RecursiveTmpView,RecursiveCount:rs.RecursiveCount,}",
+   "if(node.cachedFilePath==nil){",
+   "node.cachedFilePath=make(map[string]string)",
+   "}",
+   "if(node.now.IsZero()){",
+   "node.now=option.Now(rs.Tx.Flags.GetTimeLocation())",
+   "}",
+   "returnnode"]
+
+/-- `selectSet`: a set operation inside the definition of a recursive table is run as the recursion -/
+def selectSetBody : List String :=
+  ["lview,err:=selectSetEntity(ctx,scope,set.LHS,forUpdate)",
+   "if(err!=nil){",
+   "returnnil,err",
+   "}",
+   "if(scope.RecursiveTable!=nil){",
+   "scope.RecursiveTmpView=nil",
+   "err:=selectSetForRecursion(ctx,scope,lview,set,forUpdate)",
+   "if(err!=nil){",
+   "returnnil,err",
+   "}",
+   "}else{",
+   "queryScope:=scope.CreateNode()",
+   "rview,err:=selectSetEntity(ctx,queryScope,set.RHS,forUpdate)",
+   "queryScope.CloseCurrentNode()",
+   "queryScope=nil",
+   "if(err!=nil){",
+   "returnnil,err",
+   "}",
+   "if(lview.FieldLen()!=rview.FieldLen()){",
+   "returnnil,NewCombinedSetFieldLengthError(set.RHS,lview.FieldLen())",
+   "}",
+   "switch(set.Operator.Token){",
+   "case(parser.UNION):",
+   "if(err=lview.Union(ctx,scope.Tx.Flags,rview,!set.All.IsEmpty());err!=nil){",
+   "returnnil,err",
+   "}",
+   "case(parser.EXCEPT):",
+   "if(err=lview.Except(ctx,scope.Tx.Flags,rview,!set.All.IsEmpty());err!=nil){",
+   "returnnil,err",
+   "}",
+   "case(parser.INTERSECT):",
+   "if(err=lview.Intersect(ctx,scope.Tx.Flags,rview,!set.All.IsEmpty());err!=nil){",
+   "returnnil,err",
+   "}",
+   "}",
+   "}",
+   "err=lview.SelectAllColumns(ctx,scope)",
+   "returnlview,err"]
+
+/-- `selectSetForRecursion`: the limit count, the working view (first the anchor's records, then the records of the step before), the step, the merge -/
+def selectSetForRecursionBody : List String :=
+  ["if(ctx.Err()!=nil){",
+   "returnConvertContextError(ctx.Err())",
+   "}",
+   "if(-1<scope.Tx.Flags.LimitRecursion){",
+   "if(scope.RecursiveCount==nil){",
+   "scope.RecursiveCount=new(int64)",
+   "}",
+   "if(scope.Tx.Flags.LimitRecursion<atomic.AddInt64(scope.RecursiveCount,1)){",
+   "returnNewRecursionExceededLimitError(set.RHS,scope.Tx.Flags.LimitRecursion)",
+   "}",
+   "}",
+   "tmpViewName:=strings.ToUpper(scope.RecursiveTable.Name.Literal)",
+   "if(scope.RecursiveTmpView==nil){",
+   "err:=view.Header.Update(tmpViewName,scope.RecursiveTable.Fields)",
+   "if(err!=nil){",
+   "returnerr",
+   "}",
+   "scope.RecursiveTmpView=view",
+   "}",
+   "queryScope:=scope.CreateNode()",
+   "rview,err:=selectSetEntity(ctx,queryScope,set.RHS,forUpdate)",
+   "queryScope.CloseCurrentNode()",
+   "queryScope=nil",
+   "if(err!=nil){",
+   "returnerr",
+   "}",
+   "if(view.FieldLen()!=rview.FieldLen()){",
+   "returnNewCombinedSetFieldLengthError(set.RHS,view.FieldLen())",
+   "}",
+   "if(rview.RecordLen()<1){",
+   "returnnil",
+   "}",
+   "switch(set.Operator.Token){",
+   "case(parser.UNION):",
+   "if(err=view.Union(ctx,scope.Tx.Flags,rview,!set.All.IsEmpty());err!=nil){",
+   "returnerr",
+   "}",
+   "case(parser.EXCEPT):",
+   "if(err=view.Except(ctx,scope.Tx.Flags,rview,!set.All.IsEmpty());err!=nil){",
+   "returnerr",
+   "}",
+   "case(parser.INTERSECT):",
+   "if(err=view.Intersect(ctx,scope.Tx.Flags,rview,!set.All.IsEmpty());err!=nil){",
+   "returnerr",
+   "}",
+   "}",
+   "if(err=rview.Header.Update(tmpViewName,scope.RecursiveTable.Fields);err!=nil){",
+   "returnerr",
+   "}",
+   "scope.RecursiveTmpView=rview",
+   "returnselectSetForRecursion(ctx,scope,view,set,forUpdate)"]
+
+/-- `InlineTableMap.Set`: a node of its own, RecursiveTable for WITH RECURSIVE, the query, the header -/
+def inlineTableSetBody : List String :=
+  ["scope=scope.CreateNode()",
+   "if(inlineTable.IsRecursive()){",
+   "if(scope.RecursiveTable!=nil){",
+   "returnNewNestedRecursionError(inlineTable.Name)",
+   "}",
+   "scope.RecursiveTable=&inlineTable",
+   "}",
+   "view,err:=Select(ctx,scope,inlineTable.Query)",
+   "scope.CloseCurrentNode()",
+   "if(err!=nil){",
+   "returnerr",
+   "}",
+   "err=view.Header.Update(inlineTable.Name.Literal,inlineTable.Fields)",
+   "if(err!=nil){",
+   "if(_,ok:=err.(*FieldLengthNotMatchError);ok){",
+   "returnNewInlineTableFieldLengthError(inlineTable.Query,inlineTable.Name,len(inlineTable.Fields))",
+   "}",
+   "returnerr",
+   "}",
+   "view.FileInfo=nil",
+   "returnit.Store(inlineTable.Name,view)"]
 
 end Csvq.Ref
